@@ -160,8 +160,11 @@ class FGen:
             return ["-", ["var", rng.choice(same)], ["var", rng.choice(same)]]
         if length == 4 and r < 0.92:
             a, b = rng.choice(same), rng.choice(same)
-            if rng.random() < 0.5:
+            q = rng.random()
+            if q < 0.4:
                 return ["call", "<builtin>matmul", [["var", a], ["var", b], ["num", 2], ["num", 2]], {}]
+            if q < 0.6:
+                return ["call", "<builtin>linear_solve", [["var", a], ["var", b], ["num", 2], ["num", 2]], {}]
             return ["call", "<builtin>transpose", [["var", a], ["num", 2]], {}]
         return ["call", "<builtin>elementwise_abs", [["var", rng.choice(same)]], {}]
 
@@ -224,7 +227,9 @@ class FGen:
                 continue
             if r < 0.2:
                 rhs = self.num_expr(sc, rng.choice([1, 2, 2, 3]))
-                lhs = rng.choice(persist["nums"]) if rng.random() < 0.4 else rng.choice(["x", "y1", "z", "w", "tmp", "q"])
+                lhs = rng.choice(persist["nums"]) if rng.random() < 0.4 else rng.choice(
+                    ["x", "y1", "z", "w", "tmp", "q", "X", "Y1", "tmp_0", "local_x", "lploc_x", "ifthenelse_result",
+                     "a_rather_long_name_for_a_temporary_variable_of_the_method_0123456789"])
                 if lhs in sc["bools"] or lhs in sc["arrs"] or lhs in sc["uts"]:
                     continue
                 ops.append(["assign", lhs, None, rhs, [], self.s(rhs)])
